@@ -1,26 +1,34 @@
 #!/bin/sh
 # usage: scripts/seed_matrix.sh [seed-dir ...]   (default: every /verif/seeded/*/)
-# For each kept seeded change: apply it to /repo, run the quick check of its property (no minimisation),
-# undo it, and record what happened in <seed-dir>/result.json. /repo must be clean. Not a registered check.
+# For each kept seeded change: make a scratch worktree of /repo's HEAD outside /repo and /verif, apply the
+# change there, run the quick check of its property against that tree (VERIF_REPO, no minimisation),
+# remove the worktree, and record what happened in <seed-dir>/result.json. /repo itself is not touched.
+# Not a registered check.
 cd /verif
-test -z "$(git -C /repo status --porcelain)" || { echo "/repo not clean"; exit 2; }
 DIRS="$@"; test -n "$DIRS" || DIRS=$(ls -d seeded/*/)
 for d in $DIRS; do
   d=${d%/}; id=$(basename $d); prop=${id##*-}
-  git -C /repo apply /verif/$d/patch.diff || { echo "$id: patch does not apply"; continue; }
-  timeout 3000 ./check $prop --tier quick --nomin > /tmp/seed_matrix.out 2>&1; rc=$?
-  git -C /repo checkout -- . ; git -C /repo clean -fdq
-  python3 - "$d" "$prop" "$rc" <<'PY'
+  wt=/tmp/sm_$id
+  git -C /repo worktree remove --force $wt >/dev/null 2>&1
+  git -C /repo worktree add --detach $wt HEAD >/dev/null 2>&1 || { echo "$id: cannot create worktree"; continue; }
+  if git -C $wt apply /verif/$d/patch.diff; then
+    VERIF_REPO=$wt timeout 3000 ./check $prop --tier quick --nomin > /tmp/seed_matrix_$id.out 2>&1; rc=$?
+  else
+    echo "$id: patch does not apply"; rc=99; : > /tmp/seed_matrix_$id.out
+  fi
+  git -C /repo worktree remove --force $wt; git -C /repo worktree prune
+  python3 - "$d" "$prop" "$rc" "/tmp/seed_matrix_$id.out" <<'PY'
 import sys,re,json
-d,prop,rc=sys.argv[1:4]
-out=open('/tmp/seed_matrix.out').read()
+d,prop,rc,outf=sys.argv[1:5]
+out=open(outf).read()
 m=re.search(r'runs=(\d+) nontrivial_distinct=(\d+) violations=(\d+) known=(\d+) infra=(\d+).*wall=([\d.]+)s',out)
 cl=re.search(r'violation classes \(first per run\): (.*)',out)
-res={'property':prop,'check_cmd':f'./check {prop} --tier quick --nomin','exit_code':int(rc),
-     'runs':int(m.group(1)) if m else None,'runs_with_unknown_violation':int(m.group(3)) if m else None,
+res={'property':prop,'check_cmd':f'VERIF_REPO=<scratch worktree with patch.diff applied> ./check {prop} --tier quick --nomin','exit_code':int(rc),
+     'runs':int(m.group(1)) if m else None,'runs_with_unlisted_violation':int(m.group(3)) if m else None,
      'wall_s':float(m.group(6)) if m else None,'violation_classes':cl.group(1).strip() if cl else '',
      'caught': int(rc)==1 and 'VIOLATION property='+prop in out}
 json.dump(res,open(d+'/result.json','w'),indent=1)
-print(d,res['caught'],res['runs_with_unknown_violation'],'/',res['runs'],res['violation_classes'])
+print(d,res['caught'],res['runs_with_unlisted_violation'],'/',res['runs'],res['violation_classes'])
 PY
+  rm -f /tmp/seed_matrix_$id.out
 done
